@@ -1,7 +1,7 @@
 (* Props/C14.v — Holder staking payouts: snapshot minimum, proportional, capped.
    Only statements, each closed by [exact]; proofs live in Lemmas/. *)
 From Model Require Import Examples.
-From Lemmas Require Import ArithLemmas PayoutLemmas.
+From Lemmas Require Import ArithLemmas PayoutLemmas IssuanceLedger.
 From Gen Require Import Consts.
 Open Scope Z_scope.
 
@@ -15,6 +15,21 @@ Theorem C14_total_capped_and_exact : forall bank (rs : requests),
   (total_requested_big rs < bank -> payouts bank rs = rs).
 Proof. exact payouts_never_exceed_bank. Qed.
 Print Assumptions C14_total_capped_and_exact.
+
+(* On the LEDGER (SnapshotPayouts, for every state and rate table): the snapshots rotate -- the new current snapshot
+   is the ledger as the block's transaction sees it at that moment, the past one is what was current --, only PEG is
+   created, by exactly the sum of the payouts computed from the sorted positive stakes, which never exceeds
+   4500 PEG x 144, equals it when the stakes reach it, and is exactly the stakes below it. *)
+Theorem C14_snapshot_on_the_ledger : forall c h ts rates s s',
+  snapshot_payouts c h ts rates s = Ok s' ->
+  let rs := snapshot_reqs c h rates s in
+  snap_cur s' = bal s /\ snap_past s' = snap_cur s /\
+  (forall t, supply s' t = supply s t + (if t =? PTickerPEG then sum_snd (payouts staking_cap rs) else 0)) /\
+  sum_snd (payouts staking_cap rs) <= staking_cap /\
+  (staking_cap <= total_requested_big rs -> rs <> [] -> sum_snd (payouts staking_cap rs) = staking_cap) /\
+  (total_requested_big rs < staking_cap -> payouts staking_cap rs = rs).
+Proof. exact snapshot_payouts_ledger. Qed.
+Print Assumptions C14_snapshot_on_the_ledger.
 
 (* the cap is 4,500 PEG x 144 *)
 Example C14_cap : PerBlockAssetHolders * SnapshotRate = 4500 * 100000000 * 144.
